@@ -125,22 +125,36 @@ Proof. vm_compute. repeat split; try reflexivity. discriminate. Qed.
 
 (* ---------------------------------------------------------------- the embedded document (known finding P9) *)
 Definition emb_children_blocks (r : option (list tnode)) : list N := match r with Some ch => flat_map tn_blocks ch | None => [] end.
-(* never a heap violation, never a leak ... *)
-Lemma embedded_characters_heap_ok : forall fails parsable,
-  let '(h, res, ch) := embedded_characters (heap0 fails) parsable in
+(* never a heap violation, never a leak — old and repaired code *)
+Lemma embedded_characters_heap_ok : forall old fails parsable,
+  let '(h, res, ch) := embedded_characters old (heap0 fails) parsable in
   clean h /\ leaked h (emb_children_blocks ch) = [] /\ all_live h (emb_children_blocks ch) = true /\
   (res = EmbError <-> ch = None).
-Proof. intros fails p. flags; oracle fails 6%nat. Qed.
-(* ... but an allocation failure INSIDE the embedded parse is swallowed: the run goes on with a text node — REFUTED *)
+Proof. intros o fails p. flags; oracle fails 6%nat. Qed.
+(* OLD code: an allocation failure INSIDE the embedded parse is swallowed: the run goes on with a text node — REFUTED *)
 Lemma embedded_characters_swallow_refuted :
-  exists k, snd (fst (embedded_characters (heap0 (single k)) true)) = EmbText /\
-            snd (fst (embedded_characters (heap0 nofail) true)) = EmbTree.
+  exists k, snd (fst (embedded_characters true (heap0 (single k)) true)) = EmbText /\
+            snd (fst (embedded_characters true (heap0 nofail) true)) = EmbTree.
 Proof. exists 0%nat. vm_compute. split; reflexivity. Qed.
-(* exactly which failures are swallowed: the two requests of the embedded parse itself (its parser, its tree); a refused
-   tree node of wbxml_tree_add_tree is reported *)
+(* ... exactly the two requests of the embedded parse itself (its parser, its tree) were swallowed *)
 Lemma embedded_characters_swallowed_exactly : forall fails,
-  snd (fst (embedded_characters (heap0 fails) true)) = EmbText ->
+  snd (fst (embedded_characters true (heap0 fails) true)) = EmbText ->
   nth_error fails 0 = Some true \/ (nth_error fails 0 = Some false /\ nth_error fails 1 = Some true).
 Proof.
   intros fails. split_oracle fails 6%nat; vm_compute; intros H; try discriminate H; auto.
 Qed.
+(* REPAIRED code (props/C16/P9-fix.patch): for every oracle a parsable embedded document never ends up as text: either
+   the tree node or an error; text only for content that really is not WBXML, and then with every allocation granted
+   or an error *)
+Lemma embedded_characters_fixed_ok : forall fails,
+  snd (fst (embedded_characters false (heap0 fails) true)) <> EmbText /\
+  (snd (fst (embedded_characters false (heap0 fails) true)) = EmbTree \/
+   (snd (fst (embedded_characters false (heap0 fails) true)) = EmbError /\ exists k, nth_error fails k = Some true)).
+Proof.
+  intros fails. split_oracle fails 4%nat; vm_compute; (split; [discriminate|]);
+    first [left; reflexivity
+          | right; split; [reflexivity|]; first [exists 0%nat; reflexivity | exists 1%nat; reflexivity | exists 2%nat; reflexivity | exists 3%nat; reflexivity]].
+Qed.
+Lemma embedded_characters_fixed_not_parsable : forall fails,
+  snd (fst (embedded_characters false (heap0 fails) false)) <> EmbTree.
+Proof. intros fails. split_oracle fails 6%nat; vm_compute; discriminate. Qed.
